@@ -198,15 +198,16 @@ def check_accounting(case):
     ref = None
     if kind == "lin":
         ref, tol = sc.lin_reference(case, steps)
-    elif name in ("euler", "runge-kutta"):
-        if kind == "nonauto":
-            ref = sc.step_reference(case, steps, t0, dt)
-            scale = max(1.0, float(np.abs(ref).max()), abs(case["eq"]["zb"] / case["eq"]["z"]))
-            tol = (steps + 1) * 1e-13 * scale + sc.time_jitter_tol(case, steps, calls + 1, tmax, dt)
-        elif case["eq"]["zr"] * steps <= 10:
-            ref = sc.step_reference(case, steps, t0, dt)
-            # round-off is amplified by at most exp(r T) = exp(zr*steps)
-            tol = (steps + 1) * 1e-13 * float(np.exp(case["eq"]["zr"] * steps)) * max(1.0, float(np.abs(ref).max()))
+    elif kind == "nonauto":
+        ref = sc.step_reference(case, steps, t0, dt)
+        scale = max(1.0, float(np.abs(ref).max()), abs(case["eq"]["zb"] / case["eq"]["z"]))
+        tol = (steps + 1) * 1e-13 * scale + sc.time_jitter_tol(case, steps, calls + 1, tmax, dt)
+        if name in ("implicit", "crank-nicolson"):
+            tol += (steps + 1) * 10 * np.sqrt(ref.size) * sc.MAXERROR * scale
+    elif name in ("euler", "runge-kutta") and case["eq"]["zr"] * steps <= 10:
+        ref = sc.step_reference(case, steps, t0, dt)
+        # round-off is amplified by at most exp(r T) = exp(zr*steps)
+        tol = (steps + 1) * 1e-13 * float(np.exp(case["eq"]["zr"] * steps)) * max(1.0, float(np.abs(ref).max()))
     if ref is not None and _finite(ref):
         labels.append("reference:yes")
         err = float(np.abs(data - ref).max())
